@@ -90,6 +90,14 @@ CHECKS["C11"] = (
     "3/C11",
 )
 
+CHECKS["C13"] = (
+    "exploration",
+    "deterministic simulation of the three-endpoint fail-over chain: real RibbitTactClient on an in-process simulated network (scripted endpoint behaviours, seeded TCP segmentation and latency, refused/reset/closed/stalled connections) under tokio's paused clock and the interposed libc clock; executable decision table + cache/TTL model + metamorphic re-runs over segmentations",
+    "Seeded search over assignments of behaviours to the three endpoints x endpoint classes x memory/disk protocol cache x TCP segmentations x scripts of query/advance/new-client/swap-behaviours: the request log must be the decision table's prefix of [https, http, tcp], the result Ok iff the stopping endpoint answered well-formed with exactly the document it served, good answers are served from cache with zero network events until the TTL and not after, failures are never cached, and the same script under other segmentations of the same TCP bytes gives identical outcomes.",
+    "Trusted: the decision table written from the property text; the stubbed transport boundary (kernel TCP, TLS, hyper and reqwest's pool are not exercised; transport failures surface as ProtocolError::Network/Timeout); 10 ms clock-coupling granularity; queries within 10 s of a TTL boundary are not judged.",
+    "3/C13",
+)
+
 PENDING = {}
 
 
